@@ -19,6 +19,7 @@ def configure(cfg, r, tier):
     # freeze now and then: a copy of a frozen network is unfrozen and editable
     for k in ("H", "DH", "SC"):
         cfg["ops"][k]["freeze"] = 0.3
+        cfg["ops"][k]["set_net_attr"] = 2.5
     cfg["faults"] = False
 
 
